@@ -11,6 +11,7 @@ import (
 	"bufio"
 	"context"
 	"encoding/hex"
+	"errors"
 	"encoding/json"
 	"flag"
 	"fmt"
@@ -95,6 +96,9 @@ type Scenario struct {
 	MaxScale int32 `json:"max_scale,omitempty"` // exponential histograms: the view's MaxScale
 	// exemplars: measurements are recorded inside a sampled span and a view keeps only AllowKeys as data-point
 	// attributes, so every other attribute becomes a filtered attribute of the exemplar
+	ExtraScopes [][]AttrJ `json:"extra_scopes,omitempty"` // further meters: same name / version, these instrumentation attributes
+	ExtraValues []float64 `json:"extra_values,omitempty"`
+	FailingCallback bool  `json:"failing_callback,omitempty"`
 	Exemplars bool     `json:"exemplars,omitempty"`
 	TraceID   string   `json:"trace_id,omitempty"`
 	SpanID    string   `json:"span_id,omitempty"`
@@ -162,6 +166,8 @@ type Obs struct {
 	ResAttrs  []KV      `json:"res_attrs"` // resource attributes in set order
 	ScopeAttrs []KV     `json:"scope_attrs"` // scope attributes + otel_scope_name / otel_scope_version in set order
 	ScopeInfoLabels []KV `json:"scope_info_labels"`
+	ScopeInputs [][]KV `json:"scope_inputs"`          // per meter: its attributes + name + version, in set order
+	ScopeInfoSeries [][]KV `json:"scope_info_series"` // label pairs of every otel_scope_info series
 	SecondFamilies int  `json:"second_scrape_families"`
 	Unstable  bool      `json:"unstable"`  // two consecutive scrapes differed
 }
@@ -243,125 +249,154 @@ func runScenario(sc Scenario) (ob Obs) {
 	ob.ScopeAttrs = attrKVs(attribute.NewSet(append(append([]attribute.KeyValue{}, skvs...),
 		attribute.String("otel_scope_name", sc.ScopeName), attribute.String("otel_scope_version", sc.ScopeVer))...))
 
-	sets := make([]attribute.Set, len(sc.Points))
-	for i, p := range sc.Points {
-		var kvs []attribute.KeyValue
-		for _, a := range p.Attrs {
-			kvs = append(kvs, a.kv())
+	// drive creates the scenario's instrument on a meter and records the points through it
+	drive := func(m metric.Meter, points []PointJ) error {
+		var ierr error
+		sets := make([]attribute.Set, len(points))
+		for i, p := range points {
+			var kvs []attribute.KeyValue
+			for _, a := range p.Attrs {
+				kvs = append(kvs, a.kv())
+			}
+			sets[i] = attribute.NewSet(kvs...)
 		}
-		sets[i] = attribute.NewSet(kvs...)
+		switch sc.Inst {
+		case "i64counter":
+			c, e := m.Int64Counter(sc.Name, metric.WithUnit(sc.Unit), metric.WithDescription(sc.Desc))
+			ierr = e
+			for i, p := range points {
+				for _, v := range p.Values {
+					c.Add(rctx, int64(v), metric.WithAttributeSet(sets[i]))
+				}
+			}
+		case "f64counter":
+			c, e := m.Float64Counter(sc.Name, metric.WithUnit(sc.Unit), metric.WithDescription(sc.Desc))
+			ierr = e
+			for i, p := range points {
+				for _, v := range p.Values {
+					c.Add(rctx, v, metric.WithAttributeSet(sets[i]))
+				}
+			}
+		case "i64updown":
+			c, e := m.Int64UpDownCounter(sc.Name, metric.WithUnit(sc.Unit), metric.WithDescription(sc.Desc))
+			ierr = e
+			for i, p := range points {
+				for _, v := range p.Values {
+					c.Add(rctx, int64(v), metric.WithAttributeSet(sets[i]))
+				}
+			}
+		case "f64updown":
+			c, e := m.Float64UpDownCounter(sc.Name, metric.WithUnit(sc.Unit), metric.WithDescription(sc.Desc))
+			ierr = e
+			for i, p := range points {
+				for _, v := range p.Values {
+					c.Add(rctx, v, metric.WithAttributeSet(sets[i]))
+				}
+			}
+		case "i64gauge":
+			c, e := m.Int64Gauge(sc.Name, metric.WithUnit(sc.Unit), metric.WithDescription(sc.Desc))
+			ierr = e
+			for i, p := range points {
+				for _, v := range p.Values {
+					c.Record(rctx, int64(v), metric.WithAttributeSet(sets[i]))
+				}
+			}
+		case "f64gauge":
+			c, e := m.Float64Gauge(sc.Name, metric.WithUnit(sc.Unit), metric.WithDescription(sc.Desc))
+			ierr = e
+			for i, p := range points {
+				for _, v := range p.Values {
+					c.Record(rctx, v, metric.WithAttributeSet(sets[i]))
+				}
+			}
+		case "i64hist", "i64expohist":
+			o := []metric.Int64HistogramOption{metric.WithUnit(sc.Unit), metric.WithDescription(sc.Desc)}
+			if sc.HasBounds {
+				o = append(o, metric.WithExplicitBucketBoundaries(sc.Bounds...))
+			}
+			c, e := m.Int64Histogram(sc.Name, o...)
+			ierr = e
+			for i, p := range points {
+				for _, v := range p.Values {
+					c.Record(rctx, int64(v), metric.WithAttributeSet(sets[i]))
+				}
+			}
+		case "f64hist", "f64expohist":
+			o := []metric.Float64HistogramOption{metric.WithUnit(sc.Unit), metric.WithDescription(sc.Desc)}
+			if sc.HasBounds {
+				o = append(o, metric.WithExplicitBucketBoundaries(sc.Bounds...))
+			}
+			c, e := m.Float64Histogram(sc.Name, o...)
+			ierr = e
+			for i, p := range points {
+				for _, v := range p.Values {
+					c.Record(rctx, v, metric.WithAttributeSet(sets[i]))
+				}
+			}
+		case "i64obscounter", "i64obsupdown", "i64obsgauge":
+			cb := func(_ context.Context, o metric.Int64Observer) error {
+				for i, p := range points {
+					if len(p.Values) > 0 {
+						o.Observe(int64(p.Values[len(p.Values)-1]), metric.WithAttributeSet(sets[i]))
+					}
+				}
+				return nil
+			}
+			switch sc.Inst {
+			case "i64obscounter":
+				_, ierr = m.Int64ObservableCounter(sc.Name, metric.WithUnit(sc.Unit), metric.WithDescription(sc.Desc), metric.WithInt64Callback(cb))
+			case "i64obsupdown":
+				_, ierr = m.Int64ObservableUpDownCounter(sc.Name, metric.WithUnit(sc.Unit), metric.WithDescription(sc.Desc), metric.WithInt64Callback(cb))
+			default:
+				_, ierr = m.Int64ObservableGauge(sc.Name, metric.WithUnit(sc.Unit), metric.WithDescription(sc.Desc), metric.WithInt64Callback(cb))
+			}
+		case "f64obscounter", "f64obsupdown", "f64obsgauge":
+			cb := func(_ context.Context, o metric.Float64Observer) error {
+				for i, p := range points {
+					if len(p.Values) > 0 {
+						o.Observe(p.Values[len(p.Values)-1], metric.WithAttributeSet(sets[i]))
+					}
+				}
+				return nil
+			}
+			switch sc.Inst {
+			case "f64obscounter":
+				_, ierr = m.Float64ObservableCounter(sc.Name, metric.WithUnit(sc.Unit), metric.WithDescription(sc.Desc), metric.WithFloat64Callback(cb))
+			case "f64obsupdown":
+				_, ierr = m.Float64ObservableUpDownCounter(sc.Name, metric.WithUnit(sc.Unit), metric.WithDescription(sc.Desc), metric.WithFloat64Callback(cb))
+			default:
+				_, ierr = m.Float64ObservableGauge(sc.Name, metric.WithUnit(sc.Unit), metric.WithDescription(sc.Desc), metric.WithFloat64Callback(cb))
+			}
+		default:
+			return errors.New("unknown instrument " + sc.Inst)
+		}
+		return ierr
 	}
-	var ierr error
-	switch sc.Inst {
-	case "i64counter":
-		c, e := m.Int64Counter(sc.Name, metric.WithUnit(sc.Unit), metric.WithDescription(sc.Desc))
-		ierr = e
-		for i, p := range sc.Points {
-			for _, v := range p.Values {
-				c.Add(rctx, int64(v), metric.WithAttributeSet(sets[i]))
-			}
+	ierr := drive(m, sc.Points)
+	// further meters with the SAME name, version and schema URL that differ only in their instrumentation attributes:
+	// each is a scope of its own (own otel_scope_info series); their points carry a distinguishing attribute
+	ob.ScopeInputs = append(ob.ScopeInputs, ob.ScopeAttrs)
+	for j, extra := range sc.ExtraScopes {
+		var ekvs []attribute.KeyValue
+		for _, a := range extra {
+			ekvs = append(ekvs, a.kv())
 		}
-	case "f64counter":
-		c, e := m.Float64Counter(sc.Name, metric.WithUnit(sc.Unit), metric.WithDescription(sc.Desc))
-		ierr = e
-		for i, p := range sc.Points {
-			for _, v := range p.Values {
-				c.Add(rctx, v, metric.WithAttributeSet(sets[i]))
-			}
+		em := mp.Meter(sc.ScopeName, metric.WithInstrumentationVersion(sc.ScopeVer), metric.WithInstrumentationAttributes(ekvs...))
+		ob.ScopeInputs = append(ob.ScopeInputs, attrKVs(attribute.NewSet(append(append([]attribute.KeyValue{}, ekvs...),
+			attribute.String("otel_scope_name", sc.ScopeName), attribute.String("otel_scope_version", sc.ScopeVer))...)))
+		pts := []PointJ{{Attrs: []AttrJ{{K: "zsc", T: "i", I: int64(j + 1)}}, Values: sc.ExtraValues}}
+		if e := drive(em, pts); e != nil && ierr == nil {
+			ierr = e
 		}
-	case "i64updown":
-		c, e := m.Int64UpDownCounter(sc.Name, metric.WithUnit(sc.Unit), metric.WithDescription(sc.Desc))
-		ierr = e
-		for i, p := range sc.Points {
-			for _, v := range p.Values {
-				c.Add(rctx, int64(v), metric.WithAttributeSet(sets[i]))
-			}
+	}
+	// an observable instrument whose callback fails (and observes nothing) while the others hold data
+	if sc.FailingCallback {
+		_, e := m.Int64ObservableGauge("zz.failing.callback", metric.WithInt64Callback(func(context.Context, metric.Int64Observer) error {
+			return errors.New("scripted callback failure " + sc.Name)
+		}))
+		if e != nil && ierr == nil {
+			ierr = e
 		}
-	case "f64updown":
-		c, e := m.Float64UpDownCounter(sc.Name, metric.WithUnit(sc.Unit), metric.WithDescription(sc.Desc))
-		ierr = e
-		for i, p := range sc.Points {
-			for _, v := range p.Values {
-				c.Add(rctx, v, metric.WithAttributeSet(sets[i]))
-			}
-		}
-	case "i64gauge":
-		c, e := m.Int64Gauge(sc.Name, metric.WithUnit(sc.Unit), metric.WithDescription(sc.Desc))
-		ierr = e
-		for i, p := range sc.Points {
-			for _, v := range p.Values {
-				c.Record(rctx, int64(v), metric.WithAttributeSet(sets[i]))
-			}
-		}
-	case "f64gauge":
-		c, e := m.Float64Gauge(sc.Name, metric.WithUnit(sc.Unit), metric.WithDescription(sc.Desc))
-		ierr = e
-		for i, p := range sc.Points {
-			for _, v := range p.Values {
-				c.Record(rctx, v, metric.WithAttributeSet(sets[i]))
-			}
-		}
-	case "i64hist", "i64expohist":
-		o := []metric.Int64HistogramOption{metric.WithUnit(sc.Unit), metric.WithDescription(sc.Desc)}
-		if sc.HasBounds {
-			o = append(o, metric.WithExplicitBucketBoundaries(sc.Bounds...))
-		}
-		c, e := m.Int64Histogram(sc.Name, o...)
-		ierr = e
-		for i, p := range sc.Points {
-			for _, v := range p.Values {
-				c.Record(rctx, int64(v), metric.WithAttributeSet(sets[i]))
-			}
-		}
-	case "f64hist", "f64expohist":
-		o := []metric.Float64HistogramOption{metric.WithUnit(sc.Unit), metric.WithDescription(sc.Desc)}
-		if sc.HasBounds {
-			o = append(o, metric.WithExplicitBucketBoundaries(sc.Bounds...))
-		}
-		c, e := m.Float64Histogram(sc.Name, o...)
-		ierr = e
-		for i, p := range sc.Points {
-			for _, v := range p.Values {
-				c.Record(rctx, v, metric.WithAttributeSet(sets[i]))
-			}
-		}
-	case "i64obscounter", "i64obsupdown", "i64obsgauge":
-		cb := func(_ context.Context, o metric.Int64Observer) error {
-			for i, p := range sc.Points {
-				if len(p.Values) > 0 {
-					o.Observe(int64(p.Values[len(p.Values)-1]), metric.WithAttributeSet(sets[i]))
-				}
-			}
-			return nil
-		}
-		switch sc.Inst {
-		case "i64obscounter":
-			_, ierr = m.Int64ObservableCounter(sc.Name, metric.WithUnit(sc.Unit), metric.WithDescription(sc.Desc), metric.WithInt64Callback(cb))
-		case "i64obsupdown":
-			_, ierr = m.Int64ObservableUpDownCounter(sc.Name, metric.WithUnit(sc.Unit), metric.WithDescription(sc.Desc), metric.WithInt64Callback(cb))
-		default:
-			_, ierr = m.Int64ObservableGauge(sc.Name, metric.WithUnit(sc.Unit), metric.WithDescription(sc.Desc), metric.WithInt64Callback(cb))
-		}
-	case "f64obscounter", "f64obsupdown", "f64obsgauge":
-		cb := func(_ context.Context, o metric.Float64Observer) error {
-			for i, p := range sc.Points {
-				if len(p.Values) > 0 {
-					o.Observe(p.Values[len(p.Values)-1], metric.WithAttributeSet(sets[i]))
-				}
-			}
-			return nil
-		}
-		switch sc.Inst {
-		case "f64obscounter":
-			_, ierr = m.Float64ObservableCounter(sc.Name, metric.WithUnit(sc.Unit), metric.WithDescription(sc.Desc), metric.WithFloat64Callback(cb))
-		case "f64obsupdown":
-			_, ierr = m.Float64ObservableUpDownCounter(sc.Name, metric.WithUnit(sc.Unit), metric.WithDescription(sc.Desc), metric.WithFloat64Callback(cb))
-		default:
-			_, ierr = m.Float64ObservableGauge(sc.Name, metric.WithUnit(sc.Unit), metric.WithDescription(sc.Desc), metric.WithFloat64Callback(cb))
-		}
-	default:
-		ob.InstErr = "unknown instrument " + sc.Inst
-		return
 	}
 	if ierr != nil {
 		ob.InstErr = ierr.Error()
@@ -386,6 +421,13 @@ func runScenario(sc Scenario) (ob Obs) {
 			}
 		case "otel_scope_info":
 			ob.ScopeInfo = true
+			for _, mm := range mf.GetMetric() {
+				var l []KV
+				for _, lp := range mm.GetLabel() {
+					l = append(l, KV{lp.GetName(), lp.GetValue()})
+				}
+				ob.ScopeInfoSeries = append(ob.ScopeInfoSeries, l)
+			}
 			if len(mf.GetMetric()) == 1 {
 				for _, lp := range mf.GetMetric()[0].GetLabel() {
 					ob.ScopeInfoLabels = append(ob.ScopeInfoLabels, KV{lp.GetName(), lp.GetValue()})
@@ -909,6 +951,25 @@ func genScenario(r *vgen.Rand, id int, utf8 bool) Scenario {
 	if r.Chance(1, 4) {
 		sc.ScopeAttrs = genAttrs(r, r.Intn(4)+1, r.Chance(1, 6))
 	}
+	// several meters with the same name and version that differ only in their instrumentation attributes
+	if r.Chance(1, 6) {
+		n := 1 + r.Intn(2)
+		// (the first meter keeps benign attributes here: a scope that is skipped because of its attributes is a scenario of its own)
+		sc.ScopeAttrs = []AttrJ{{K: "shard", T: "i", I: 0}}
+		if r.Bool() {
+			sc.ScopeAttrs = append(sc.ScopeAttrs, genAttrs(r, 1+r.Intn(2), false)...)
+		}
+		for j := 1; j <= n; j++ {
+			extra := []AttrJ{{K: "shard", T: "i", I: int64(j)}}
+			if r.Bool() {
+				extra = append(extra, genAttrs(r, 1+r.Intn(2), false)...)
+			}
+			sc.ExtraScopes = append(sc.ExtraScopes, extra)
+		}
+		sc.ExtraValues = genValues(r, sc.Inst)
+	}
+	// an observable callback that fails during the scrape while the scenario's instrument holds data
+	sc.FailingCallback = r.Chance(1, 6)
 	// exemplars: a sampled span around the measurements and a view that filters attributes out of the data point
 	if r.Chance(1, 7) {
 		sc.Inst = vgen.Pick(r, []string{"i64counter", "f64counter", "i64hist", "f64hist", "i64hist", "i64updown"})
@@ -942,7 +1003,7 @@ var droppedPool = []AttrJ{
 // makeExemplarScenario rewrites the points: kept attribute "keep" (+ "zid"), everything else is filtered into the exemplar.
 func makeExemplarScenario(r *vgen.Rand, sc *Scenario) {
 	sc.Exemplars = true
-	sc.AllowKeys = []string{"keep", "zid"}
+	sc.AllowKeys = []string{"keep", "zid", "zsc"}
 	sc.TraceID = fmt.Sprintf("%032x", r.U64()|1)
 	sc.SpanID = fmt.Sprintf("%016x", r.U64()|1)
 	for i := range sc.Points {
@@ -1037,6 +1098,33 @@ func fixedCorpus(utf8 bool) []Scenario {
 		mk("expo.zero.only", "1", inst, func(s *Scenario) { s.Points = []PointJ{{Values: []float64{0, 0}}} })
 		mk("expo.two.points", "s", inst, func(s *Scenario) {
 			s.Points = []PointJ{{Values: []float64{-1000, 1}}, {Attrs: []AttrJ{{K: "zid", T: "i", I: 1}}, Values: []float64{-1, 1000, 2}}}
+		})
+	}
+	// meters that differ only in their attributes (pairs and triples); a failing callback beside data
+	for _, inst := range []string{"i64counter", "f64hist", "i64obsgauge"} {
+		mk("two.scopes", "s", inst, func(s *Scenario) {
+			s.ScopeAttrs = []AttrJ{{K: "shard", T: "i", I: 0}}
+			s.ExtraScopes = [][]AttrJ{{{K: "shard", T: "i", I: 1}}}
+			s.ExtraValues = []float64{5}
+		})
+		mk("three.scopes", "By", inst, func(s *Scenario) {
+			s.ScopeAttrs = []AttrJ{{K: "shard", T: "i", I: 0}, {K: "a.b", T: "s", S: "x"}}
+			s.ExtraScopes = [][]AttrJ{{{K: "shard", T: "i", I: 1}, {K: "a.b", T: "s", S: "x"}}, {{K: "shard", T: "i", I: 2}, {K: "a_b", T: "s", S: "y"}, {K: "a.b", T: "s", S: "x"}}}
+			s.ExtraValues = []float64{1, 2}
+		})
+		mk("two.scopes.noscopeinfo", "s", inst, func(s *Scenario) {
+			s.NoScope = true
+			s.ScopeAttrs = []AttrJ{{K: "shard", T: "i", I: 0}}
+			s.ExtraScopes = [][]AttrJ{{{K: "shard", T: "i", I: 1}}}
+			s.ExtraValues = []float64{5}
+		})
+		mk("failing.callback", "s", inst, func(s *Scenario) { s.FailingCallback = true })
+		mk("failing.callback.bare", "1", inst, func(s *Scenario) { s.FailingCallback = true; s.NoScope = true; s.NoTarget = true })
+		mk("failing.callback.scopes", "s", inst, func(s *Scenario) {
+			s.FailingCallback = true
+			s.ScopeAttrs = []AttrJ{{K: "shard", T: "i", I: 0}}
+			s.ExtraScopes = [][]AttrJ{{{K: "shard", T: "i", I: 1}}}
+			s.ExtraValues = []float64{5}
 		})
 	}
 	// exemplars: accepted, at the 128-rune limit, one beyond it, far beyond it, keys that need sanitising; counters and histograms
@@ -1313,6 +1401,9 @@ func emit(w *vgen.Writer, sc Scenario, ob Obs) {
 		w.Violation("panic while driving the exporter: "+ob.Panic, desc)
 		return
 	}
+	if sc.FailingCallback && strings.Contains(ob.SDKErr, "scripted callback failure") {
+		ob.SDKErr = "" // the reference reader reports the failing callback as well: expected
+	}
 	if ob.SDKErr != "" || (ob.InstErr != "" && !strings.Contains(ob.InstErr, "invalid instrument name")) {
 		w.Violation("unexpected SDK error: "+ob.SDKErr+" "+ob.InstErr, desc)
 		return
@@ -1434,11 +1525,36 @@ func emit(w *vgen.Writer, sc Scenario, ob Obs) {
 	if !utf8.ValidString(sc.Name) {
 		return
 	}
+	scheme := "legacy"
+	if sc.UTF8 {
+		scheme = "utf8"
+	}
+	cbErrors := uint64(0)
+	if sc.FailingCallback {
+		cbErrors = 1
+	}
 	term := vgen.App("CScrape", vgen.Bool(sc.UTF8), vgen.Bool(sc.NoUnits), vgen.Bool(sc.NoTotal), ns, vgen.Bool(sc.NoScope), vgen.Bool(sc.NoTarget),
 		vgen.HxS(sc.Name), vgen.HxS(sc.Unit), vgen.N(uint64(instKind(sc.Inst))), vgen.HxS(sc.ScopeName), vgen.HxS(sc.ScopeVer),
 		attrsCoq(ob.ResAttrs, asRunes), attrsCoq(ob.ScopeAttrs, asRunes), vgen.List(pts),
 		vgen.Bool(ob.GatherErr != ""), vgen.N(uint64(len(ob.Handled))), vgen.Bool(ob.Target), vgen.Bool(ob.ScopeInfo), fam,
-		vgen.HxS(sc.TraceID), vgen.HxS(sc.SpanID), vgen.List(pexs), vgen.List(oexs))
+		vgen.HxS(sc.TraceID), vgen.HxS(sc.SpanID), vgen.List(pexs), vgen.List(oexs), vgen.N(cbErrors))
+	if sc.FailingCallback {
+		w.Tally("failing-callback")
+	}
+	if len(sc.ExtraScopes) > 0 {
+		w.Tally(fmt.Sprintf("meters-differing-only-in-attributes:%d", len(sc.ExtraScopes)+1))
+		if !sc.NoScope {
+			var ins, outs []string
+			for _, in := range ob.ScopeInputs {
+				ins = append(ins, attrsCoq(in, asRunes))
+			}
+			for _, out := range ob.ScopeInfoSeries {
+				outs = append(outs, attrsCoq(out, false))
+			}
+			t := vgen.App("CScopeInfos", vgen.Bool(sc.UTF8), vgen.List(ins), vgen.List(outs))
+			w.Add(t, map[string]any{"scopes": ob.ScopeInputs, "otel_scope_info_series": ob.ScopeInfoSeries, "utf8": sc.UTF8, "gather_err": ob.GatherErr}, "scope-infos-"+scheme, true)
+		}
+	}
 	if sc.Exemplars {
 		w.Tally("exemplar-scenarios")
 		for _, s := range ob.SDK {
@@ -1454,10 +1570,6 @@ func emit(w *vgen.Writer, sc Scenario, ob Obs) {
 			}
 		}
 	}
-	scheme := "legacy"
-	if sc.UTF8 {
-		scheme = "utf8"
-	}
 	w.Tally("scheme:" + scheme)
 	w.Tally("inst:" + sc.Inst)
 	w.Tally(fmt.Sprintf("opts:units=%v,total=%v,ns=%v,scope=%v,target=%v", !sc.NoUnits, !sc.NoTotal, sc.NS != nil, !sc.NoScope, !sc.NoTarget))
@@ -1470,7 +1582,7 @@ func emit(w *vgen.Writer, sc Scenario, ob Obs) {
 		t := vgen.App("CAttrs", vgen.Bool(sc.UTF8), attrsCoq(ob.ResAttrs, asRunes), attrsCoq(ob.TargetLabels, false))
 		w.Add(t, map[string]any{"resource": ob.ResAttrs, "target_info_labels": ob.TargetLabels, "utf8": sc.UTF8}, "target-info-labels-"+scheme, true)
 	}
-	if ob.ScopeInfo && len(sc.ScopeAttrs) > 0 {
+	if ob.ScopeInfo && len(sc.ScopeAttrs) > 0 && len(sc.ExtraScopes) == 0 {
 		t := vgen.App("CAttrs", vgen.Bool(sc.UTF8), attrsCoq(ob.ScopeAttrs, asRunes), attrsCoq(ob.ScopeInfoLabels, false))
 		w.Add(t, map[string]any{"scope_attributes": ob.ScopeAttrs, "otel_scope_info_labels": ob.ScopeInfoLabels, "utf8": sc.UTF8}, "scope-info-labels-"+scheme, true)
 	}
